@@ -265,7 +265,10 @@ def list_dot(ctx, mp):
                 S = sim.Sim([mac], hooks={"call": hook}, inline=inline, max_paths=2000, max_depth=6, max_visits=3)
                 outs = set()
                 try:
-                    for pth in S.run(pl):
+                    # the list parser builds its token cursor itself (Parser::new is answered above) or is handed one
+                    pargs = {i: mp.parser_value(toks) for i in range(1, pl.arg_count + 1)
+                             if pl.local_ty(i).split("<")[0].endswith("parser::Parser")}
+                    for pth in S.run(pl, args=pargs):
                         if pth.end in ("stop:tail", "stop:element"):
                             outs.add(pth.end[5:])
                         else:
